@@ -41,7 +41,7 @@ Norm(sp) == IF sp.u \in {"ua", "ub", "ux"}
 
 (* ua = "zoë", ub = "zoë@example.org", ux = "mallory" in the harness.     *)
 MapIds == {"none", "identity", "s_ab", "s_swap", "s_id", "s_ba", "s_proj",
-           "r_strip", "r_append", "b_local", "b_localopt"}
+           "r_strip", "r_append", "b_local", "b_localopt", "r_class", "r_dollar", "r_alt"}
 
 Only(pairs) == [n \in Names |-> IF \E p \in pairs : p[1] = n
                                 THEN (CHOOSE p \in pairs : p[1] = n)[2] ELSE "none"]
@@ -56,6 +56,12 @@ MapF(id) ==
     [] id = "r_strip"   -> Only({<<"ub", "ua">>})                       \* regexp ^(.+)@example\.org$ -> $1
     [] id = "r_append"  -> Only({<<"ua", "ub">>, <<"ub", "other">>,     \* regexp ^(.+)$ -> $1@example.org
                                  <<"ux", "other">>, <<"other", "other">>})
+    \* regexp maps without written anchors: table.regexp's full_match (default yes) promises
+    \* that "the provided regular expression should match the whole string", so a name that
+    \* merely contains a covered name (the "ux" spellings pre_*/suf_*) is not covered
+    [] id = "r_class"   -> Only({<<"ub", "ua">>})                       \* regexp ua(\+[^@]*)?@dom -> ua
+    [] id = "r_dollar"  -> Only({<<"ub", "ua">>, <<"ua", "ua">>})       \* regexp ua(@dom|$) -> ua
+    [] id = "r_alt"     -> Only({<<"ub", "ua">>})                       \* regexp ub|ua\+[a-z]+@dom -> ua
     [] id = "b_local"   -> Only({<<"ub", "ua">>})                       \* table.email_localpart
     [] id = "b_localopt" -> Only({<<"ub", "ua">>, <<"ua", "ua">>, <<"ux", "ux">>})  \* ..._optional
 
